@@ -27,7 +27,8 @@ RULE = (
 )
 BOUNDS = {
     "quick": "TREE(N<=5) trees with a history node under a non-root parent x {no default, default=last sibling} x {sync, async}",
-    "thorough": "TREE(N<=6) trees with a history node under a non-root parent x {no default, default=last sibling} x {sync, async}",
+    "thorough": "TREE(N<=6) trees with a history node under a non-root parent x {no default, default=last sibling} x {sync, async}; "
+                "plus structured skeletons C(X(H,s1,s2),A) with X in {C,P}, H in {Hs,Hd}, s1,s2 from a subtree menu (quick: reduced menu)",
 }
 ASSUMPTIONS = [
     "only transitions taken while the history state's parent is inactive are judged (the property leaves the "
@@ -45,12 +46,14 @@ def units(tier: str) -> List[Any]:
         if any(x.is_history and x.parent.parent is not None for x in nodes):
             out.append((t, False))
             out.append((t, True))
+    for t in F.hist_skeletons(tier):
+        out.append((t, False))
     return out
 
 
 def build_cfg(tree, with_default: bool):
     nodes = F.flatten(tree)
-    cfg, nodes, events = F.universal_config(tree)
+    cfg, nodes, events = F.universal_config(tree, reenter_all=False)
     defaults: Dict[str, str] = {}
     if with_default:
         for n in nodes:
